@@ -153,7 +153,9 @@ func c20Run(x *core.Ctx) {
 			types := c14Types()
 			ts := types[r.Intn(len(types))]
 			schema, _ := gqlparser.LoadSchema(&ast.Source{Name: "c14.graphql", Input: c14Schema})
-			g := &c14Gen{r: r, schema: schema, defect: c14Defects[2+r.Intn(len(c14Defects)-2)]}
+			// one value in four is a conforming one (no defect): there must then be no error at all - not even an error
+			// interface with nothing in it
+			g := &c14Gen{r: r, schema: schema, defect: c14Defects[r.Intn(len(c14Defects)+2)%len(c14Defects)]}
 			v := g.value(mustType(ts), 2)
 			b, _ := json.Marshal(encodeTyped(v))
 			c := core.NewCase("variables", "type", ts, "value", string(b))
@@ -344,6 +346,11 @@ func c20Error(x *core.Ctx, entry string, err error, srcNames []string, isValidat
 	}
 	x.Count("errors:" + entry)
 	x.Nontrivial()
+	if rv := reflect.ValueOf(err); rv.Kind() == reflect.Ptr && rv.IsNil() {
+		// an error interface that holds a nil pointer: `err != nil` is true for the caller, and there is nothing in it
+		x.Violate(entry+":nil-pointer-in-error", fmt.Sprintf("a non-nil error holding (%T)(nil)", err), "nil, or an error with a message")
+		return
+	}
 	msg := err.Error()
 	if strings.TrimSpace(msg) == "" {
 		x.Violate(entry+":empty-message", fmt.Sprintf("%#v", err), "a non-empty message")
@@ -619,7 +626,7 @@ func c20Check(x *core.Ctx, c *core.Case) {
 		_, verr := validator.VariableValues(schema, doc.Operations[0], map[string]interface{}{"v": decodeTyped(raw)})
 		if verr != nil {
 			ge, ok := verr.(*gqlerror.Error)
-			if ok && len(ge.Path) == 0 {
+			if ok && ge != nil && len(ge.Path) == 0 {
 				x.Violate("variables:no-path", ge.Message, "the path of the offending value")
 			}
 		}
